@@ -95,13 +95,17 @@ def build(seed, for_feedforward=False):
     kind = str(rng.choice(['uniform', 'jitter', 'gaps']))
     step = int(rng.choice([1, 2, 5, 10, 20]))
     n_inc = int(rng.integers(30, 140))
+    # own stream for what was added later (the schedules of earlier seeds stay what they were)
+    frng = np.random.Generator(np.random.PCG64(int(seed) + 977))
+    tiny = bool(frng.random() < 0.08)
+    if tiny:
+        n_inc = int(frng.integers(1, 4))          # records of one, two or three increments (every loop runs its first and last pass at once)
     ii = imu_stamp_indices(rng, kind, step, n_inc)
     imu = imu0.iloc[ii]
     traj = traj0.iloc[ii]
     inc = strapdown.compute_increments_from_imu(imu, 'rate')
     # representation of the tables (own stream, so that the schedules themselves stay as they were): label-addressed tables may come with
     # their columns in another order, unrelated extra columns and an unnamed time index
-    frng = np.random.Generator(np.random.PCG64(int(seed) + 977))
     table_forms = bool(frng.random() < 0.3)
     if table_forms:
         from rv.workloads import forms
@@ -122,6 +126,8 @@ def build(seed, for_feedforward=False):
             continue
         nm = int(rng.integers(1, 3))
         modes = [str(m) for m in rng.choice(MODES, nm, replace=False)]
+        if tiny:
+            modes = [m if m in ('none', 'on', 'off', 'outside', 'dense') else 'on' for m in modes]
         e = np.unique(np.concatenate([place_epochs(rng, t, m) for m in modes] + [np.array([])]))
         if shared is not None and rng.random() < 0.35:
             e = np.unique(np.r_[e, rng.choice(shared, max(1, len(shared) // 2))]) if len(shared) else e
@@ -173,7 +179,7 @@ def build(seed, for_feedforward=False):
     return dict(traj=traj, imu=imu, increments=inc, measurements=meas_arg, sensors=sensors, times=t, start=start, end=end,
                 with_altitude=with_altitude, time_step=time_step, gyro_model=gm, accel_model=am, model_kind=mk,
                 describe=dict(imu=kind, step=step, n_inc=int(len(inc)), median_dt=h, max_gap=float(np.diff(t).max()),
-                              time_step=time_step, with_altitude=with_altitude, models=mk, sensors=desc, tables_permuted=table_forms,
+                              time_step=time_step, with_altitude=with_altitude, models=mk, sensors=desc, tables_permuted=table_forms, tiny_record=tiny,
                               measurements_arg='list' if sensors else ('None' if meas_arg is None else '[]'),
                               epochs_inside=int(len(inside)), max_epochs_in_one_interval=int(per_interval)),
                 init_err=init_err)
